@@ -170,7 +170,8 @@ def run_property(prop, tier, seed):
     wall = time.time() - t0
     # ------------------------------------------------------------- verdict + evidence
     states = sum(r.get("paths", 0) for r in results) + sum((r.get("cbmc") or {}).get("size_program_expression", 0) or 0 for r in results)
-    transitions = sum(r.get("queries", 0) for r in results) + sum(r.get("checks", 0) for r in results)
+    # E2: solver queries discharged + fork edges of the exploration tree (one per explored path; choice forks need no solver)
+    transitions = sum(r.get("queries", 0) + r.get("paths", 0) for r in results) + sum(r.get("checks", 0) for r in results)
     samples = []
     for r in results[:6]:
         samples.append({"harness": r["harness"], "bound": r.get("bound"), "result": r["result"], "example_path_inputs": r.get("sample")})
@@ -179,8 +180,10 @@ def run_property(prop, tier, seed):
         "traces_validated_against_impl": validated + len(violations) + len(known_hits),
         "samples": samples,
         "exhaustive": False,
-        "explanation": "states = symbolic paths explored to completion (E2) + CBMC SSA steps (E1); transitions = solver queries discharged "
-                       "(E2) + properties decided by CBMC (E1). Every verdict is bounded: see 'harnesses[].bound'.",
+        "explanation": "states = symbolic paths explored to completion (E2) + CBMC SSA steps (E1); transitions = solver queries discharged plus "
+                       "fork edges of the path tree (E2; bounded choices fork without a query) + properties decided by CBMC (E1). "
+                       "Every verdict is bounded: see 'harnesses[].bound'.",
+        "solver_queries": sum(r.get("queries", 0) for r in results),
         "harnesses": results,
         "functions_encoded": sorted({f for r in results for f in r.get("functions", [])}),
         "source_hashes": hashes,
